@@ -88,6 +88,17 @@ def run(idx: Index, rep: Report, tier: str) -> None:
     ok = bool(tests) and all(raising_branch(cfg, t, True) for t in tests)
     rep.check(ok, rule3, "an inapplicable action raises", ap.loc(tests[0].ast) if tests else ap.loc(), construct=norm(tests[0].ast) if tests else "", function=ap.qualname)
     obs = [(n, c) for n, c in cfg_nodes_with_call(cfg, "get_value")]
+    # a StateEvaluator reads the state it is given: evaluate(<expression>, <state>)
+    evs = [(n, c) for n, c in cfg_nodes_with_call(cfg, "evaluate") if len(c.args) + len(c.keywords) >= 2]
+    if not obs and not evs:
+        raise AnalysisError(f"{rule3}: apply() no longer reads an observation through get_value / evaluate")
+    for n, c in evs:
+        st_arg = c.args[1] if len(c.args) >= 2 else next((k.value for k in c.keywords if k.arg == "state"), None)
+        ok = st_arg is not None and norm(st_arg) == "self._state"
+        p = None
+        for s_ in st:
+            p = p or cfg.path_avoiding(cfg.entry, n, {s_})
+        rep.check(ok and p is None, rule3, "observations are evaluated in the state after the action", ap.loc(c), construct=norm(c), detail="" if ok and p is None else "an observation can be evaluated in another state than the one the action led to", function=ap.qualname, path=path_text(p) if p else None)
     for n, c in obs:
         ok = norm(c.func.value) == "self._state"
         p = None
